@@ -803,12 +803,14 @@ func c03Corpus() []c03Case {
 		{a(o("__key", "a", "b", i(1)), o("__key", "b", "b", i(2))), a(o("__key", "a", "b", i(1)), "b")}, // scalar equal to the key of the object it replaces
 		{o("__key", nil, "a", i(1)), o("a", i(1))},                                                      // nil __key disappears
 		{o("a", i(1)), o("__key", nil, "a", i(1))},                                                      // nil __key appears
-		{a(i(1), i(2)), a(i(2), i(1))},                                                                  // C03-5: reorder indices of a delta that has not been through JSON
-		{o("a", i(1)), o("a", i(1))},                                                                    // C03-6 / C03-7: the empty delta
-		{a(i(1)), a(nil)},                                                                               // C03-8: a new element that is null
-		{o(), o("__proto__", i(1))},                                                                     // C03-9: a field named __proto__
-		{o("a", i(1)), o("a", i(1), "__proto__", o("b", i(2)))},                                         // C03-9: ... with an object value
-		{o("__proto__", o("b", i(2))), o("__proto__", o("b", i(3)))},                                    // C03-9: ... updated in place
+		{o("__key", a(i(1)), "a", i(1)), o("__key", a(i(1)), "a", i(2))},                                // C15-6: a __key that is a list
+		{a(o("__key", o("x", i(1)), "a", i(1)), o("__key", a(), "a", i(2))), a(o("__key", a(), "a", i(2)), o("__key", o("x", i(1)), "a", i(3)))},
+		{a(i(1), i(2)), a(i(2), i(1))},                               // C03-5: reorder indices of a delta that has not been through JSON
+		{o("a", i(1)), o("a", i(1))},                                 // C03-6 / C03-7: the empty delta
+		{a(i(1)), a(nil)},                                            // C03-8: a new element that is null
+		{o(), o("__proto__", i(1))},                                  // C03-9: a field named __proto__
+		{o("a", i(1)), o("a", i(1), "__proto__", o("b", i(2)))},      // C03-9: ... with an object value
+		{o("__proto__", o("b", i(2))), o("__proto__", o("b", i(3)))}, // C03-9: ... updated in place
 	}
 }
 
